@@ -586,28 +586,10 @@ fn node_to_user_coordinates(
     match node {
         Node::Group(ref mut g) => {
             // No need to check clip paths, because they cannot have paint servers.
-            if let Some(ref mut mask) = g.mask {
-                if let Some(ref mut mask) = Arc::get_mut(mask) {
-                    update_paint_servers(
-                        &mut mask.root,
-                        context_transform,
-                        context_bbox,
-                        None,
-                        cache,
-                    );
-
-                    if let Some(ref mut sub_mask) = mask.mask {
-                        if let Some(ref mut sub_mask) = Arc::get_mut(sub_mask) {
-                            update_paint_servers(
-                                &mut sub_mask.root,
-                                context_transform,
-                                context_bbox,
-                                None,
-                                cache,
-                            );
-                        }
-                    }
-                }
+            let mut mask = g.mask.as_mut();
+            while let Some(m) = mask.and_then(Arc::get_mut) {
+                update_paint_servers(&mut m.root, context_transform, context_bbox, None, cache);
+                mask = m.mask.as_mut();
             }
 
             for filter in &mut g.filters {
